@@ -290,7 +290,7 @@ class Contract:
             if cs.kind == 'arr' and not getattr(cs, 'transients', None):
                 state.assume(FA(0, zi(res.order), lambda j: lst_get(cs, j).buf < m))
         for item in self.ensures(S, res):
-            if item[1] is False:
+            if item[1] is False or (isinstance(item[1], z3.BoolRef) and z3.is_false(item[1])):
                 raise Unsupported('contract %s: clause %s is literally False at a call site (line %d)' % (self.name, item[0], line))
             state.assume(item[1])
         # cut rule: consequences of the ensures clauses that later obligations need in a handy form are proved here, where the
@@ -403,6 +403,20 @@ def check_obligation(ctx, ob):
     return r, total, model
 
 
+def _solve_quick(ctx, ob):
+    from vt.e1 import calls as _calls
+    formulas = list(ctx.axioms) + list(_calls.AXIOMS) + list(ob.pc) + [z3.Not(ob.goal)]
+    r, dt, s = _solve(formulas, 3000)
+    model = ''
+    if r == 'sat':
+        try:
+            m = s.model()
+            model = '; '.join('%s=%s' % (d.name(), m[d]) for d in list(m.decls())[:40] if d.arity() == 0)
+        except Exception:
+            model = ''
+    return r, dt, model
+
+
 def verify_function(contract, inst, registry):
     """returns dict(status, obligations=[(name, status, time, detail)], hash, ...)"""
     from vt.core import OK, FAIL, UNDEC, ERR
@@ -508,6 +522,20 @@ def verify_function(contract, inst, registry):
             return res
     except Unsupported as e:
         res['unsupported'] = str(e)
+        # obligations generated before the function left the verified subset are still genuine: the refuted ones are reported
+        # (a violation takes precedence over `undecided`); the discharged ones are not counted as a proof of the function
+        bad = []
+        for ob in ctx.obls:
+            if ob.expect == 'sat':
+                continue
+            try:
+                r, dt, model = _solve_quick(ctx, ob)
+            except Exception:
+                continue
+            if r == 'sat':
+                bad.append({'name': ob.name, 'kind': ob.kind, 'line': ob.line, 'status': FAIL, 't': dt,
+                            'detail': ob.detail + ' | counter-model: ' + model + ' | (found before the function left the verified subset: ' + str(e)[:200] + ')'})
+        res['obligations'] = bad
         return res
     except Exception:
         res['unsupported'] = 'engine error: ' + traceback.format_exc()[-1500:]
